@@ -275,6 +275,7 @@ func (fv *FuncVerifier) strFuncs(name string) string {
 (assert (forall ((a Seq_Int) (b Seq_Int)) (! (= (runes2str (cat_Int a b)) (cat_Int (runes2str a) (runes2str b))) :pattern ((runes2str (cat_Int a b))))))
 (assert (forall ((c Int)) (! (= (runes2str (unit_Int c)) (rune2str c)) :pattern ((runes2str (unit_Int c))))))
 (assert (forall ((s Seq_Int)) (! (=> (utf8valid s) (= (runes2str (str2runes s)) s)) :pattern ((str2runes s)))))
+(assert (forall ((s Seq_Int) (i Int)) (! (=> (and (<= 0 i) (< i (len_Int (str2runes s)))) (and (<= 0 (at_Int (str2runes s) i)) (<= (at_Int (str2runes s) i) 1114111))) :pattern ((at_Int (str2runes s) i)))))
 `)
 	return name
 }
@@ -405,12 +406,15 @@ func (fv *FuncVerifier) specHelper(st *State, env *Env, call *ast.CallExpr, name
 		}
 		e2 := *env
 		e2.binds = env.oldBinds()
+		e2.binds = rebindGhosts(e2.binds, env.gparams, env.old)
 		return fv.eval(env.old, &e2, call.Args[0]), true
 	case "spec_entry":
 		if env.entry == nil {
 			return fv.eval(st, env, call.Args[0]), true
 		}
-		return fv.eval(env.entry, env, call.Args[0]), true
+		e2 := *env
+		e2.binds = rebindGhosts(env.binds, env.gparams, env.entry)
+		return fv.eval(env.entry, &e2, call.Args[0]), true
 	case "spec_has":
 		m := fv.eval(st, env, call.Args[0])
 		k := fv.eval(st, env, call.Args[1])
@@ -445,6 +449,29 @@ func (fv *FuncVerifier) specHelper(st *State, env *Env, call *ast.CallExpr, name
 		}
 		al := fv.heapGet(src, "$ghost:alloc", "(Array Ref Bool)")
 		return And(Not(App(SBool, "=", r, Null)), Not(App(SBool, "select", al, r))), true
+	case "spec_parsed":
+		return fv.heapGet(st, "$ghost:parsed", "Seq_Int"), true
+	case "spec_parsedName":
+		return fv.heapGet(st, "$ghost:parsedName", "Seq_Int"), true
+	case "spec_pipeline":
+		return fv.heapGet(st, "$ghost:pipeline", fv.w.SeqSort("Seq_Int")), true
+	case "spec_fx":
+		return fv.ghostLog(st, "fx"), true
+	case "spec_calls":
+		return fv.ghostLog(st, "calls"), true
+	case "spec_scanSrc":
+		sv := fv.eval(st, env, call.Args[0])
+		return fv.readField(st, sv, "$scan:src", "Seq_Int"), true
+	case "spec_scanPos":
+		sv := fv.eval(st, env, call.Args[0])
+		return fv.readField(st, sv, "$scan:pos", SInt), true
+	case "spec_written":
+		wv := fv.eval(st, env, call.Args[0])
+		return fv.readField(st, wv, contentKey, "Seq_Int"), true
+	case "spec_yielded":
+		it := fv.eval(st, env, call.Args[0])
+		rt := fv.typeOf(env, call)
+		return fv.yielded(it, fv.sortOf(rt)), true
 	case "spec_sortedKeys":
 		m := fv.eval(st, env, call.Args[0])
 		if !w.IsMap(m.Sort) || w.mapKV[m.Sort][0] != "Seq_Int" {
@@ -518,6 +545,23 @@ func (fv *FuncVerifier) specHelper(st *State, env *Env, call *ast.CallExpr, name
 		return T(SBool, "(%s (%s) %s)", q, strings.Join(binders, " "), body.S), true
 	}
 	return Term{}, false
+}
+
+// rebindGhosts: inside old(...) / entry(...) ghost names denote their values in that earlier state.
+func rebindGhosts(binds map[types.Object]Term, gparams map[string]types.Object, st *State) map[types.Object]Term {
+	if len(gparams) == 0 || st == nil {
+		return binds
+	}
+	m := make(map[types.Object]Term, len(binds))
+	for k, v := range binds {
+		m[k] = v
+	}
+	for n, o := range gparams {
+		if t, ok := st.ghost[n]; ok {
+			m[o] = t
+		}
+	}
+	return m
 }
 
 func (e *Env) oldBinds() map[types.Object]Term {
@@ -829,12 +873,13 @@ func (fv *FuncVerifier) joinInto(dst *State, states []*State) {
 func (fv *FuncVerifier) callRepoFunc(st *State, env *Env, call *ast.CallExpr, fi *FuncInfo, sig *types.Signature, recv Term, hasRecv bool, args []Term) []Term {
 	c := fi.Contr
 	fv.calleesUsed[fi.Key] = true
-	if c == nil || !(c.Has("requires", 0) || c.Has("ensures", 0) || c.Has("pure", 0) || c.Has("assigns", 0) || c.Has("yields", 0) || c.Has("effects", 0)) {
+	if c == nil || !(c.Has("requires", 0) || c.Has("ensures", 0) || c.Has("pure", 0) || c.Has("assigns", 0) || c.Has("yields", 0) || c.Has("effects", 0) || c.Has("functional", 0)) {
 		// no contract: arbitrary effects and results
 		if !env.spec {
 			fv.nondet = append(fv.nondet, "call of uncontracted "+fi.Key)
 			fv.note("call of uncontracted %s at %s: heap and map arguments havocked", fi.Key, fv.pos(call.Pos()))
 			fv.havocAll(st)
+			fv.havocLogs(st)
 			fv.havocMapArgs(st, env, call)
 		}
 		return fv.freshResults(st, sig)
@@ -900,8 +945,18 @@ func (fv *FuncVerifier) callRepoFunc(st *State, env *Env, call *ast.CallExpr, fi
 			fv.havocAll(st)
 			fv.havocMapArgs(st, env, call)
 		}
+		if c.Has("effects", 0) {
+			fv.havocLogs(st)
+		}
 	}
-	res := fv.freshResults(st, sig)
+	var res []Term
+	if c.Has("functional", 0) {
+		for i := 0; i < sig.Results().Len(); i++ {
+			res = append(res, Term{Sort: fv.sortOf(sig.Results().At(i).Type())})
+		}
+	} else {
+		res = fv.freshResults(st, sig)
+	}
 	if c.Has("functional", 0) {
 		// result is a deterministic function of the arguments and the (unchanged) heap: same inputs, same result
 		var ins []Term
@@ -909,7 +964,9 @@ func (fv *FuncVerifier) callRepoFunc(st *State, env *Env, call *ast.CallExpr, fi
 			ins = append(ins, recv)
 		}
 		ins = append(ins, args...)
-		ins = append(ins, IntLit(int64(fv.heapVersion(st))))
+		if !c.Has("heapfree", 0) {
+			ins = append(ins, IntLit(int64(fv.heapVersion(st))))
+		}
 		var sorts []Sort
 		for _, a := range ins {
 			sorts = append(sorts, a.Sort)
@@ -917,7 +974,10 @@ func (fv *FuncVerifier) callRepoFunc(st *State, env *Env, call *ast.CallExpr, fi
 		for i := range res {
 			name := fmt.Sprintf("fun_%s_%d", sanitize(fi.Key), i)
 			fv.w.UFun(name, sorts, res[i].Sort, "")
-			st.Assume(App(SBool, "=", res[i], App(res[i].Sort, name, ins...)))
+			res[i] = App(res[i].Sort, name, ins...)
+			if st.heapParams == nil && !strings.Contains(res[i].S, "$") {
+				st.Assume(fv.typeInv(res[i], sig.Results().At(i).Type()))
+			}
 		}
 	} else if !c.Has("pure", 0) || len(c.Get("ensures", 0, 0)) == 0 {
 		// result not pinned down by determinism
@@ -936,6 +996,37 @@ func (fv *FuncVerifier) callRepoFunc(st *State, env *Env, call *ast.CallExpr, fi
 		}
 	}
 	return res
+}
+
+// ghostLog returns the current ghost effect ("fx") or call ("calls") log.
+func (fv *FuncVerifier) ghostLog(st *State, which string) Term {
+	var es Sort
+	if which == "fx" {
+		es = fv.w.StructSort("spec_Effect", []structField{{"Kind", SInt}, {"Path", fv.w.SeqSort(SInt)}})
+	} else {
+		es = fv.w.StructSort("spec_Call", []structField{{"Kind", SInt}, {"Gen", SRef}, {"Obj", SRef}, {"Err", SRef}})
+	}
+	return fv.heapGet(st, "$ghost:"+which, fv.w.SeqSort(es))
+}
+
+func (fv *FuncVerifier) appendEffect(st *State, kind int, path Term) {
+	log := fv.ghostLog(st, "fx")
+	e := fv.w.StructMk(fv.w.elemOf[log.Sort], []Term{IntLit(int64(kind)), path})
+	st.heap["$ghost:fx"] = fv.w.SeqCat(log, fv.w.SeqUnit(log.Sort, e))
+}
+
+func (fv *FuncVerifier) appendCall(st *State, kind int, gen, obj, err Term) {
+	log := fv.ghostLog(st, "calls")
+	e := fv.w.StructMk(fv.w.elemOf[log.Sort], []Term{IntLit(int64(kind)), gen, obj, err})
+	st.heap["$ghost:calls"] = fv.w.SeqCat(log, fv.w.SeqUnit(log.Sort, e))
+}
+
+// havocLogs forgets the ghost logs (a /repo function without contract may perform any effect).
+func (fv *FuncVerifier) havocLogs(st *State) {
+	for _, k := range []string{"fx", "calls"} {
+		old := fv.ghostLog(st, k)
+		st.heap["$ghost:"+k] = fv.fresh("log_"+k, old.Sort)
+	}
 }
 
 // heapVersion identifies the current heap contents: it changes whenever any heap cell may have changed.
@@ -1004,6 +1095,15 @@ func (fv *FuncVerifier) havocMapArgs(st *State, env *Env, call *ast.CallExpr) {
 		}
 	}
 	for _, a := range exprs {
+		if u, ok := ast.Unparen(a).(*ast.UnaryExpr); ok && u.Op == token.AND {
+			if id, ok := ast.Unparen(u.X).(*ast.Ident); ok {
+				if t := fv.typeOf(env, id); t != nil && !isContentObject(t) {
+					nv := fv.fresh("addrhavoc", fv.sortOf(t))
+					st.Assume(fv.typeInv(nv, t))
+					fv.assignTo(st, env, id, nv, nil)
+				}
+			}
+		}
 		t := fv.typeOf(env, a)
 		if t == nil {
 			continue
@@ -1061,6 +1161,11 @@ func (fv *FuncVerifier) applyAssigns(st *State, env *Env, fi *FuncInfo, cl *Clau
 			fv.havocMapArgs(st, env, call)
 			continue
 		}
+		isContent := false
+		if strings.HasPrefix(tgt, "content(") && strings.HasSuffix(tgt, ")") {
+			isContent = true
+			tgt = tgt[len("content(") : len(tgt)-1]
+		}
 		parts := strings.Split(tgt, ".")
 		// find the parameter object
 		var pobj types.Object
@@ -1072,6 +1177,10 @@ func (fv *FuncVerifier) applyAssigns(st *State, env *Env, fi *FuncInfo, cl *Clau
 		if pobj == nil {
 			fv.note("assigns target %q of %s not understood: everything havocked", tgt, fi.Key)
 			fv.havocAll(st)
+			continue
+		}
+		if len(parts) == 1 && isContent {
+			fv.writeField(st, binds[pobj], contentKey, "Seq_Int", fv.fresh("content_post", "Seq_Int"))
 			continue
 		}
 		if len(parts) == 1 {
@@ -1110,7 +1219,10 @@ func (fv *FuncVerifier) applyAssigns(st *State, env *Env, fi *FuncInfo, cl *Clau
 			}
 			fs := fv.sortOf(fld.Type())
 			key := fieldKey(ct, fld.Name())
-			if k == len(parts)-1 {
+			if k == len(parts)-1 && isContent {
+				obj := fv.readField(st, ref, key, fs)
+				fv.writeField(st, obj, contentKey, "Seq_Int", fv.fresh("content_post", "Seq_Int"))
+			} else if k == len(parts)-1 {
 				nv := fv.fresh(parts[k]+"_post", fs)
 				st.Assume(fv.typeInv(nv, fld.Type()))
 				fv.writeField(st, ref, key, fs, nv)
@@ -1164,6 +1276,25 @@ func (fv *FuncVerifier) callUnknown(st *State, env *Env, call *ast.CallExpr, fn 
 			if ic.Has("pure", 0) {
 				policy = "pure"
 			}
+			if cls := ic.Get("calllog", 0, 0); len(cls) > 0 && !env.spec {
+				// user code invoked by the framework: arbitrary heap effects, NO file-system effects (assumed),
+				// recorded in the ghost call log together with the error it returned
+				kind := 0
+				fmt.Sscanf(cls[0].Text, "%d", &kind)
+				fv.nondet = append(fv.nondet, "user code "+ic.Key)
+				fv.havocAll(st)
+				res := fv.freshResults(st, sig)
+				obj := Null
+				if len(args) > 1 {
+					obj = args[1]
+				}
+				errT := Null
+				if len(res) > 0 {
+					errT = res[len(res)-1]
+				}
+				fv.appendCall(st, kind, recv, obj, errT)
+				return res
+			}
 		}
 	}
 	switch policy {
@@ -1198,7 +1329,14 @@ func (fv *FuncVerifier) callUnknown(st *State, env *Env, call *ast.CallExpr, fn 
 		if sig.Results().Len() > 0 {
 			fv.nondet = append(fv.nondet, "result of dropped call "+full)
 		}
-		return fv.freshResults(st, sig)
+		res := fv.freshResults(st, sig)
+		for i, r := range res {
+			// logging / context helpers hand back usable (non-nil) objects — assumption of the drop policy
+			if r.Sort == SRef && !types.Identical(sig.Results().At(i).Type(), types.Universe.Lookup("error").Type()) {
+				st.Assume(Not(App(SBool, "=", r, Null)))
+			}
+		}
+		return res
 	}
 	if !env.spec {
 		fv.nondet = append(fv.nondet, "call of unknown external "+full)
